@@ -66,7 +66,7 @@ def pack(lv, k, a, b):
 
 
 def coq_run(name, run, tabs=None):
-    """Definitions <name>_gg : gdag, <name>_cap : nat, <name>_tr : option (list glabel) (events as text).
+    """Definitions <name>_gg : gdag, <name>_cap : nat, <name>_atr : option (list (glabel * bool)) (events as text, with the skip bit of start events).
     tabs: dict content -> name of already emitted tables (identical graphs are emitted once per file)."""
     import hashlib
     if tabs is None:
@@ -100,14 +100,14 @@ def coq_run(name, run, tabs=None):
             flat.append(pack(0, 11, int(f[1]), 0))
         else:
             lvl, kind, a, b, x = int(f[1]), f[2], int(f[3]), int(f[4]), int(f[5])
-            flat.append(pack(lvl + 1, KINDS[kind], a, x if kind == "end" else max(b, 0)))
+            flat.append(pack(lvl + 1, KINDS[kind], a, x if kind in ("end", "start") else max(b, 0)))
     # long literals overflow coqc's stack: chunks of 1000 events
     chunks = []
     for c in range(0, len(flat), 1000):
         cn = "%s_c%d" % (name, len(chunks))
         out += "Definition %s : bstr := \"%s\"%%bstr.\n" % (cn, "".join(flat[c:c + 1000]))
         chunks.append(cn)
-    out += "Definition %s_tr : option (list (glabel unit unit)) := decode_trace [%s].\n" % (name, "; ".join(chunks))
+    out += "Definition %s_atr : option (list (glabel unit unit * bool)) := decode_annot [%s].\n" % (name, "; ".join(chunks))
     return out
 
 
